@@ -35,6 +35,23 @@ func main() {
 		}
 		return strings.Join(tr, ";")
 	})
+	// t6n <cfg> <t0> <op>... : no implicit drain (outside the discipline): the 128-slot channel fills up; every op's output
+	// (the D ops carry what they drained) and the final channel length
+	r.Register("t6n", func(a []string) string {
+		cfg := tables.ParseCfg(a[0])
+		t0, _ := strconv.ParseInt(a[1], 10, 64)
+		sm := tables.NewSim(cfg, t0)
+		defer sm.Close()
+		var tr []string
+		for _, op := range a[2:] {
+			tr = append(tr, sm.Apply(op))
+			if sm.Dead {
+				return strings.Join(tr, ";")
+			}
+		}
+		tr = append(tr, "len="+strconv.Itoa(len(sm.S.C)))
+		return strings.Join(tr, ";")
+	})
 	// t6c <cfg> <t0> <ips> <op>... : (address/online) pairs per unit of the pure discipline
 	r.Register("t6c", func(a []string) string {
 		cfg := tables.ParseCfg(a[0])
@@ -159,6 +176,34 @@ func main() {
 		}
 		r.Do("t6", append([]string{cfg.Tok(), "0"}, ops...)...)
 		r.Stat("class.many-addresses-per-mac", 1)
+	}
+	// outside the discipline: the channel is not drained and fills to its 128 slots (sendNotification drops, makeOffline has
+	// cleared the pending mark: the transition is lost), a second Notify with the same Frame (must be silent)
+	for i := 0; i < 6; i++ {
+		r.Do("t6n", append([]string{cfg.Tok(), "0"}, g.FullChannelHistory(120+rng.Intn(20))...)...)
+		r.Stat("class.full-channel", 1)
+	}
+	for i := 0; i < 60; i++ {
+		var ops []string
+		for _, o := range g.ConflictHistory(6 + rng.Intn(20)) {
+			ops = append(ops, o)
+			if o == "N" && rng.Chance(50) {
+				ops = append(ops, "N") // Notify twice with the same Frame
+			}
+			if rng.Chance(15) {
+				ops = append(ops, "D")
+			}
+		}
+		ok := true
+		for _, o := range ops {
+			if o[0] == 'P' { // inside a purge the emission order is the map's
+				ok = false
+			}
+		}
+		if ok {
+			r.Do("t6n", append([]string{cfg.Tok(), "0"}, append(ops, "D")...)...)
+			r.Stat("class.notify-twice", 1)
+		}
 	}
 	// learned names over all four attributes, identical repeats through every source
 	for i := 0; i < nName; i++ {
